@@ -586,6 +586,10 @@ def main_check(chk, argv):
             known_hits += len(r["known"])
             for c in cases:
                 stream_hist[c.stream] = stream_hist.get(c.stream, 0) + 1
+                if hasattr(c, "h"):
+                    for stp in c.h.steps:
+                        k = "%s:%s:%s" % (fname, stp[0][0] + ("/" + stp[0][5][0] if stp[0][0] == "send" else ""), "ok" if stp[1] else "fail")
+                        outcome_hist[k] = outcome_hist.get(k, 0) + 1
                 for o in c.results:
                     k = " ".join(o.split()[:2]) if o.startswith("err") else "ok"
                     outcome_hist[fname + ":" + k] = outcome_hist.get(fname + ":" + k, 0) + 1
